@@ -34,7 +34,7 @@ CLAIMED["C06"] = ("exploration", "seeded histories of region-of-interest request
     "Histories of 4-24 region requests / renders on one image per generated stream; each render compared with the rectangle of a fresh decoder's full render within 1e-6. The history dimension (caches and render handles surviving across requests) is what the simulation adds; inputs and rectangles are sampled.",
     "Self-consistency oracle (the decoder's own full render). Known findings F14b/F15/F16/F19/F24/F26 are reported as KNOWN-FINDING; the program-level shrinker attributes a failure to the features that are needed for it.")
 CLAIMED["C05"] = ("exploration", "seeded histories of keyframe requests over generated multi-frame programs, checked against an executable reference compositor fed with separately decoded frames",
-    "A small executable model (4 reference slots + the blend formulas) is compared with every keyframe the library renders, over seeded multi-frame programs and seeded request histories (order, repetition). The history dimension (slots are stateful: blend() resets evicted handles, cached blends are reused) is what the simulation adds; inputs are sampled.",
+    "A small executable model (4 reference slots + the blend formulas + patches with their eight blend modes) is compared with every keyframe the library renders, over seeded multi-frame programs and seeded request histories (order, repetition). The history dimension (slots are stateful: blend() resets evicted handles, cached blends are reused) is what the simulation adds; inputs are sampled.",
     "Frames' own samples come from the library's decode of standalone streams. Known finding F14c is reported as KNOWN-FINDING.")
 CLAIMED["C02"] = ("exploration", "simulated runs (op sequences x faults x configuration knobs, plus SIMD-tail width sweeps) executed under three detectors: an AddressSanitizer build and a MemorySanitizer build (instrumented std) on the real SIMD paths, and Miri's seeded preemptive scheduler with data-race detection on tiny programs",
     "The simulator supplies the executions (C01's scenarios plus tiny valid programs for Miri), a detector is the oracle: any AddressSanitizer / MemorySanitizer report or Miri error (out-of-bounds, use-after-free, uninitialised read, data race) is a violation attributed to the seed in flight and confirmed in a fresh process. Assurance: no report on the runs explored, nothing more.",
